@@ -14,7 +14,7 @@ from lib import common
 from lib.common import log
 
 SPEC = common.SPEC / "fs"
-FLAGS = ["-O1", "-g", "-UNDEBUG", "-fsanitize=address,undefined", "-fno-omit-frame-pointer"]
+FLAGS = ["-O1", "-g", "-UNDEBUG", "-fsanitize=address,undefined", "-fno-omit-frame-pointer", "-pthread"]
 ASSUMPTIONS = [
     "inputs are NUL-terminated strings; bytes 1..255 are used",
     "table names that contain a delimiter themselves (e.g. 'Virgin Islands, U.S.') are not in the 'known name' class: the stated grammar cannot express them",
@@ -23,6 +23,10 @@ ASSUMPTIONS = [
 ]
 PRE_MAIN = ["hu_HU.UTF-8", "Hungarian_Hungary", "en_GB", "xx_GB", "English_United States.UTF-8", "nb_NO", ""]
 FALLBACK = {"code": "en", "names": ["English"], "country": "United Kingdom", "ccode": "GB"}
+
+
+def nonfb_guess(inputs):
+    return max(1, sum(1 for t in inputs if t[1] is not None and len(t[0]) < 60))
 
 
 def harness():
@@ -227,9 +231,23 @@ def check(pid, tier, seed):
     lines += ["S s=%s" % hx(s) for s, _, _ in pre_grp]
     lines.append("E")
     inputs = inputs + pre_grp
+    # the same function from four threads at once: a sample of well-formed and fallback inputs, first judged serially like all
+    # the others, then asked again concurrently by the harness (event Conc)
+    conc_grp = [t for k, t in enumerate(inputs) if t[1] is not None and len(t[0]) < 60][:: max(1, nonfb_guess(inputs) // 25)][:25]
+    conc_grp += [t for t in inputs if t[1] is None and 0 < len(t[0]) < 40][::997][:15]
+    groups.append(conc_grp)
+    conc_gi = len(groups) - 1
+    lines.append("X g%d conc=1" % conc_gi)
+    lines += ["S s=%s" % hx(s) for s, _, _ in conc_grp]
+    lines.append("E")
+    inputs = inputs + conc_grp
     res = common.run_harness(exe, "\n".join(lines) + "\n")
     nonfb = 0
     distinct = set()
+    cr = next((r for r in res.get("g%d" % conc_gi, []) if r.get("e") == "Conc"), None)
+    if cr is not None and cr["mismatches"]:
+        verdict.violation("locale[concurrent callers] answers differ", "%d of %d calls made from four threads at once returned something else than the same call made alone (first: %r)" %
+                          (cr["mismatches"], cr["calls"], cr["first"]), {"component": "locale", "class": "concurrent callers", "inputs": [s for s, _, _ in conc_grp]})
     for gi, grp in enumerate(groups):
         recs = res.get("g%d" % gi, [])
         byi = {r["i"]: r for r in recs if r.get("e") == "Res"}
